@@ -425,27 +425,21 @@ Definition cmodule := (list ptype * list ptype * list cap * hscript)%type.
 Definition cm_module (c : cmodule) : module := let '(i, o, k, _) := c in mkModule i o k.
 Definition cm_script (c : cmodule) : hscript := let '(_, _, _, h) := c in h.
 
-(* modules, attempted connects, wires appended to diagram.wires behind connect's back (empty
-   for every diagram the property speaks about; used only to exercise the executor's
-   per-wire runtime checks in the correspondence), external inputs, enforce_static_checks *)
-Definition case :=
-  (list cmodule * list wire * list wire * list (nat * list (nat * oval)) * bool)%type.
+(* modules, attempted connects, external inputs, enforce_static_checks *)
+Definition case := (list cmodule * list wire * list (nat * list (nat * oval)) * bool)%type.
 
 Definition zn (n : nat) : Z := Z.of_nat n.
 
+(* observed: the exception class only (accepted / WiringError; report / WiringError / the
+   handler's exception / KeyError), not the message *)
 Definition cerr_code (r : option cerr) : Z :=
-  match r with
-  | None => 0 | Some CUnknownOut => 1 | Some CUnknownIn => 2
-  | Some CTypeMismatch => 3 | Some CIntegrity => 4
-  end%Z.
+  match r with None => 0 | Some _ => 1 end%Z.
 
 Definition err_code (e : err) : Z :=
   match e with
-  | EUnknownModule => 1 | EUnknownPort => 2 | EInType => 3 | EInInteg => 4
-  | EMultiSrc => 5 | ENoHandler => 6 | EMissingSrc => 7 | EPortsMismatch => 8
-  | EOutType => 9 | EOutInteg => 10 | EMissingOutput => 11 | ETypeMismatch => 12
-  | EIntegViol => 13 | EMultiVal => 14 | ECannotResolve => 15
-  | EHandlerRaised => 20 | EKeyError => 30
+  | EHandlerRaised => 20
+  | EKeyError => 30
+  | _ => 1
   end%Z.
 
 Definition tv_obs (t : tval) : list Z := [zn (dt_code (tv_dt t)); zn (il_rank (tv_il t)); tv_val t].
@@ -456,10 +450,10 @@ Definition caps_obs (l : list cap) : list Z :=
   map (fun c => zn (cap_code c)) (filter (fun c => cap_mem c l) all_caps).
 
 Definition run_case (c : case) : list (list Z) :=
-  let '(cms, attempts, forced, ext, enforce) := c in
+  let '(cms, attempts, ext, enforce) := c in
   let mods := map cm_module cms in
   let hs := fun m => match nth_error cms m with Some cm => interp_h (cm_script cm) | None => None end in
-  let wires := build mods attempts ++ forced in
+  let wires := build mods attempts in
   let '(out, calls) := execute mods wires hs enforce ext in
   [ map (fun w => cerr_code (connect_check mods w)) attempts;
     caps_obs (required_caps mods);
